@@ -141,16 +141,17 @@ def gen_project(r, impl, legacy=False, max_files=5, allow_mixed=True, n_files=No
         if r.random() < 0.15:
             fs.entry_repeated = True
         files.append(fs)
-    # one file reached, together with a twin two directories deeper, through a single recursive glob entry
+    # one file reached, together with copies one and two directories deeper, through a single recursive glob entry
     if tree and files and r.random() < 0.3 and not files[0].entry_repeated:
         import copy, os as _os
         f0 = files[0]
         base = _os.path.basename(f0.path)
         tree = "tree%d" % r.randrange(100)
-        twin = copy.deepcopy(f0)
-        f0.path, twin.path = tree + "/" + base, tree + "/deep/er/" + base
-        f0.group = twin.group = tree + "/**/" + base
-        files.append(twin)
+        twin, mid = copy.deepcopy(f0), copy.deepcopy(f0)
+        # depth 0, 1 and 2 below the directory the entry names
+        f0.path, mid.path, twin.path = tree + "/" + base, tree + "/one/" + base, tree + "/deep/er/" + base
+        f0.group = mid.group = twin.group = tree + "/**/" + base
+        files += [mid, twin]
     return dict(vp=vp, flags=list(flags), old=old, files=files, date=d, legacy=legacy, cfg_prefix=r.choice(CFG_PREFIXES), key_comment=r.random() < 0.25, dot_slash=r.random() < 0.5)
 
 
